@@ -34,6 +34,46 @@ def adversarial_arg(rng, rep=None):
     return s
 
 
+# words of forwarded link options: every character a link option may carry except ';' (open finding target-flag-semicolon)
+FWD_CHARS = list('abc019') + [' ', '$', '#', "'", '"', '\\', '*', '&', '(', '~', '=', ',', '%', '@']
+# characters of DIRECTORY names that end up inside flag words (-I<dir>, -L<dir>, -DX=<path>): not file names of targets
+FLAG_DIR_SPECIALS = ['#', '#', ' ', '$', '@', '+', '{', '^']
+# directory names in near-prefix families: one extends the other as a STRING without being below it
+FAMILY_STEMS = ['data', 'lib', 'a', 'gen', 'out/data', 'x y']
+FAMILY_EXTS = ['2', '64', '.b', '-x', '_old', ' x']
+
+
+def fwd_word(rng):
+    return ''.join(rng.choice(FWD_CHARS) for _ in range(rng.randint(1, 4)))
+
+
+def flag_dir(rng, stem):
+    """a directory name with at least one character that is special to Make, sh or Ninja"""
+    for _ in range(rng.randint(1, 2)):
+        c = rng.choice(FLAG_DIR_SPECIALS)
+        k = rng.randint(1, max(1, len(stem) - (1 if c == ' ' else 0)))
+        stem = stem[:k] + c + stem[k:]
+    return stem
+
+
+def own_stream(rng, tag):
+    """a random stream of its own for one dimension of the project (the draws of the others stay what they were)"""
+    return random.Random('%s:%r' % (tag, rng.getstate()[1][:6]))
+
+
+def fwd_closure(fwd_libs, direct):
+    """declared forwarding: {library index: number of declared paths from a consumer that lists `direct`}"""
+    paths = {}
+
+    def walk(k):
+        paths[k] = paths.get(k, 0) + 1
+        for d in fwd_libs[k]['deps']:
+            walk(d)
+    for k in direct:
+        walk(k)
+    return paths
+
+
 class Project:
     def __init__(self):
         self.files = {}          # relpath -> content
@@ -50,10 +90,13 @@ class Project:
         return t
 
 
-def generate(rng, rep=None, odd_names=False, n_exe=2, n_lib=1, with_commands=True, with_tests=True, with_yacc=True, with_genhdr=True):
+def generate(rng, rep=None, odd_names=False, n_exe=2, n_lib=1, with_commands=True, with_tests=True, with_yacc=True, with_genhdr=True,
+             with_fwd=True, with_pathflags=True, with_families=True):
     """Returns a Project. Options are raw strings beginning with -D so that gcc-like tools accept any content."""
     p = Project()
     L = p.lines
+    frng, prng, crng = own_stream(rng, 'fwd'), own_stream(rng, 'pathflags'), own_stream(rng, 'families')
+    p.fwd_libs, p.global_path_compile, p.global_path_link = [], [], []
     L.append("project(%s, version='1.0')" % pyrepr(p.name))
     gopts = ['-DG%d=%s' % (i, adversarial_arg(rng, rep)) for i in range(rng.randint(0, 2))]
     glopts = ['-Wl,--defsym=g%d=%d' % (i, i) for i in range(rng.randint(0, 1))]
@@ -69,6 +112,37 @@ def generate(rng, rep=None, odd_names=False, n_exe=2, n_lib=1, with_commands=Tru
         L.append("global_options(%s, lang='c')" % pyrepr(gopts))
     if glopts:
         L.append("global_link_options(%s)" % pyrepr(glopts))
+    if with_pathflags:
+        # flag words that are NOT plain strings when the build files are written: include directories, library directories
+        # and words joined from a string and a path, whose names contain characters special to Make / sh / Ninja
+        gi, gl, gf = flag_dir(prng, 'ginc'), flag_dir(prng, 'glib'), flag_dir(prng, 'gsrc') + '.dat'
+        p.files[gi + '/g.h'] = '#define GH 1\n'
+        p.files[gl + '/keep'] = ''
+        p.files[gf] = 'x\n'
+        L.append("global_options([opts.include_dir(header_directory(%r)), safe_format('-DGPATH={}', generic_file(%r))], lang='c')" % (gi, gf))
+        L.append("global_link_options([opts.lib_dir(directory(%r))])" % gl)
+        p.global_path_compile = [('-I', gi), ('-DGPATH=', gf)]
+        p.global_path_link = [('-L', gl)]
+    if with_fwd:
+        # static libraries whose link_options= are FORWARDED to whatever links them, some of them through another static
+        # library (libs=); several consumers, declared one after the other, list several of them each (below)
+        for k in range(frng.randint(2, 3)):
+            words = ['-Wl,--defsym=fw%d_%d=%s' % (k, j, fwd_word(frng)) for j in range(frng.randint(1, 2))]
+            deps = [frng.randrange(k)] if k >= 1 and frng.random() < 0.3 else []
+            f = 'fwd/fw%d.c' % k
+            p.files[f] = 'int fw%d(void) { return %d; }\n' % (k, k)
+            L.append("fw%d = static_library('fw%d', files=[%r], link_options=%s%s)" % (
+                k, k, f, pyrepr(words), ', libs=[%s]' % ', '.join('fw%d' % d for d in deps) if deps else ''))
+            p.fwd_libs.append({'var': 'fw%d' % k, 'file': 'libfw%d.a' % k, 'words': words, 'deps': deps})
+            p.steps.append({'kind': 'compile', 'source': f, 'owner': 'fw%d' % k, 'options': [], 'lib': True})
+
+    def fwd_pick(first):
+        """the forwarding libraries one consumer lists, in drawn order (the first consumer lists at least two)"""
+        n = len(p.fwd_libs)
+        if not n:
+            return []
+        k = frng.randint(2, n) if first else frng.choice([0, 1, 2, 2, n])
+        return frng.sample(range(n), min(k, n))
     libs = []
     for i in range(n_lib):
         lname = odd_name(rng, 'lib%d' % i, False)          # library names become -l flags: keep plain
@@ -99,6 +173,18 @@ def generate(rng, rep=None, odd_names=False, n_exe=2, n_lib=1, with_commands=Tru
         copts = ['-DE%d=%s' % (i, adversarial_arg(rng, rep)) for _ in range(rng.randint(0, 3))]
         lopts = ['-Wl,--defsym=e%d=%d' % (i, i)] if rng.random() < 0.5 else []
         use = [l for l in libs if rng.random() < 0.6]
+        fuse = fwd_pick(first=(i == 0))
+        inc_items, cpath, lpath = [], [], []
+        if with_pathflags:
+            idirs = [flag_dir(prng, 'inc%d' % i) for _ in range(prng.randint(1, 2))]
+            for d in idirs:
+                p.files[d + '/e%d.h' % i] = '#define EH 1\n'
+            pf, ld = flag_dir(prng, 'psrc%d' % i) + '.dat', flag_dir(prng, 'ldir%d' % i)
+            p.files[pf] = 'x\n'
+            p.files[ld + '/keep'] = ''
+            inc_items += [pyrepr(d) for d in idirs]
+            cpath = [('-I', d) for d in idirs] + [('-DEPATH%d=' % i, pf)]
+            lpath = [('-L', ld)]
         gensrcs = ''
         if with_yacc and i == 0:
             # sources in a language that is TRANSLATED to C first (yacc; harness/stubs/yacc stands in for bison): a step with
@@ -151,13 +237,35 @@ def generate(rng, rep=None, odd_names=False, n_exe=2, n_lib=1, with_commands=Tru
             hrng.shuffle(hdrs)
             for k, h in enumerate(hdrs):
                 L.append("ghdr%d = build_step(%s, cmd=[%s, '-o', %s, 'genhdr'])" % (k, pyrepr(h), pyrepr(shtools.ARGVREC), pyrepr(h)))
-            pch += ', includes=[%s]' % ', '.join('ghdr%d' % k for k in range(len(hdrs)))
+            inc_items = ['ghdr%d' % k for k in range(len(hdrs))] + inc_items
             p.generated_headers = hdrs
+        if inc_items:
+            pch += ', includes=[%s]' % ', '.join(inc_items)
+        copts_text, lopts_text = pyrepr(copts), pyrepr(lopts)
+        if cpath:
+            copts_text += " + [safe_format('%s{}', generic_file(%r))]" % cpath[-1]
+            lopts_text += " + [opts.lib_dir(directory(%r))]" % lpath[0][1]
         L.append("exe%d = executable(%s, files=%s%s, compile_options=%s, link_options=%s, libs=[%s]%s)" % (
-            i, pyrepr(ename), pyrepr(srcs), gensrcs, pyrepr(copts), pyrepr(lopts), ', '.join(use), pch))
+            i, pyrepr(ename), pyrepr(srcs), gensrcs, copts_text, lopts_text, ', '.join(use + [p.fwd_libs[k]['var'] for k in fuse]), pch))
         for s in srcs:
-            p.steps.append({'kind': 'compile', 'source': s, 'owner': ename, 'options': copts, 'lib': False})
-        p.steps.append({'kind': 'link', 'name': ename, 'sources': srcs, 'options': lopts, 'libs': use})
+            p.steps.append({'kind': 'compile', 'source': s, 'owner': ename, 'options': copts, 'lib': False, 'path_words': cpath,
+                            'path_words_after_options': cpath[-1:]})
+        p.steps.append({'kind': 'link', 'name': ename, 'out': ename, 'sources': srcs, 'options': lopts, 'libs': use, 'fwd': fuse,
+                        'path_words': lpath, 'path_words_after_options': lpath})
+    if with_fwd:
+        # further consumers of the forwarding libraries, declared after the programs: programs and shared libraries
+        for k in range(frng.randint(3, 4)):
+            shared = frng.random() < 0.4
+            name, out = ('fwsh%d' % k, 'libfwsh%d.so' % k) if shared else ('progfw%d' % k, 'progfw%d' % k)
+            f = 'fwd/use%d.c' % k
+            p.files[f] = 'int use%d(void) { return 0; }\n' % k if shared else 'int main(void) { return 0; }\n'
+            fuse = fwd_pick(first=False) or fwd_pick(first=True)
+            own = ['-Wl,--defsym=own%d=%d' % (k, k)] if frng.random() < 0.5 else []
+            L.append("fwuse%d = %s(%r, files=[%r], link_options=%s, libs=[%s])" % (
+                k, 'shared_library' if shared else 'executable', name, f, pyrepr(own), ', '.join(p.fwd_libs[j]['var'] for j in fuse)))
+            p.steps.append({'kind': 'compile', 'source': f, 'owner': name, 'options': [], 'lib': shared})
+            p.steps.append({'kind': 'link', 'name': name, 'out': out, 'sources': [f], 'options': own, 'libs': [], 'fwd': fuse,
+                            'path_words': []})
     if with_commands:
         for i in range(rng.randint(1, 3)):
             args = [adversarial_arg(rng, rep) for _ in range(rng.randint(1, 4))]
@@ -189,10 +297,45 @@ def generate(rng, rep=None, odd_names=False, n_exe=2, n_lib=1, with_commands=Tru
         # copies, symbolic and hard links of source-tree files and of generated files, at the top of the build directory and
         # in (nested) sub-directories: a symbolic link's target is written relative to the directory of the link
         modes = ['copy', 'symlink', 'hardlink']
-        L.append("copy_file('cdir/sub/from_step.txt', bs[0], mode=%r)" % rng.choice(modes))
-        L.append("copy_file('cdir/from_src.txt', 'gen.in', mode=%r)" % rng.choice(modes))
-        L.append("copy_file('cdir/link_to_step.txt', bs[1], mode='symlink')")
-        L.append("copy_file('top_link.txt', bs[1], mode=%r)" % rng.choice(modes))
+        copies = [('copied.txt', 'src:gen.in', "'gen.in'", 'copy'),
+                  ('cdir/sub/from_step.txt', 'out1.txt', 'bs[0]', rng.choice(modes)),
+                  ('cdir/from_src.txt', 'src:gen.in', "'gen.in'", rng.choice(modes)),
+                  ('cdir/link_to_step.txt', 'out2.txt', 'bs[1]', 'symlink'),
+                  ('top_link.txt', 'out2.txt', 'bs[1]', rng.choice(modes))]
+        for out, _, expr, mode in copies[1:]:
+            L.append("copy_file(%r, %s, mode=%r)" % (out, expr, mode))
+        if with_families:
+            # ... and between directories whose names come in NEAR-PREFIX families (data / data2, lib / lib64, a / a.b): one
+            # name extends the other as a string without being below it; generated (build-directory) inputs and source-tree
+            # inputs, the link in the shorter or in the longer directory, either of them nested deeper, and the true
+            # parent / child case next to them
+            for k in range(crng.randint(2, 3)):
+                # (blanks only in the projects with odd names: the others are also read by a plain-text rule parser)
+                stem = crng.choice([x for x in FAMILY_STEMS if odd_names or ' ' not in x])
+                if odd_names and crng.random() < 0.5:
+                    stem = odd_name(crng, stem.replace('/', '_'), True)
+                short, long_ = stem, stem + crng.choice([x for x in FAMILY_EXTS if odd_names or ' ' not in x])
+                # (the first one is always a symbolic link in the shorter-named directory to a generated file in the longer-named)
+                shape = crng.choice(['in-long', 'in-long', 'in-long', 'in-short', 'child']) if k else 'in-long'
+                din, dout = (long_, short) if shape == 'in-long' else (short, long_) if shape == 'in-short' else (short + '/sub', short)
+                if crng.random() < 0.3:
+                    din += '/deep'
+                if crng.random() < 0.2 and k:
+                    dout += '/er'
+                if crng.random() < 0.3:
+                    din, dout = 'fam/' + din, 'fam/' + dout
+                mode = crng.choice(['symlink', 'symlink', 'symlink', 'copy', 'hardlink']) if k else 'symlink'
+                fin, fout = '%s/in%d.txt' % (din, k), '%s/ln%d.txt' % (dout, k)
+                if crng.random() < 0.75 or not k:
+                    L.append("fin%d = build_step(%r, cmd=[%s, '-o', %r, 'famgen'])" % (k, fin, pyrepr(shtools.ARGVREC), fin))
+                    p.steps.append({'kind': 'build_step', 'outputs': [fin], 'args': ['-o', fin, 'famgen'], 'inputs': []})
+                    copies.append((fout, fin, 'fin%d' % k, mode))
+                else:
+                    p.files[fin] = 'family\n'
+                    copies.append((fout, 'src:' + fin, pyrepr(fin), mode))
+                L.append("fam%d = copy_file(%r, %s, mode=%r)" % (k, fout, copies[-1][2], mode))
+        for out, src, _, mode in copies:
+            p.steps.append({'kind': 'copy', 'out': out, 'src': src, 'mode': mode})
         L.append("alias('everything', [exe0] + list(bs))")
         L.append("default(exe0, *bs)")
     if with_tests:
